@@ -44,4 +44,49 @@ def main(path):
         print('not reproduced (history conforms on this tree)')
         return 0
     mod = importlib.import_module('mc.' + rp['module'])
-    return mod.replay(rp)
+    if hasattr(mod, 'replay') and not (
+            engine in ('GRID', 'FAULT') and rp.get('generic')):
+        try:
+            return mod.replay(rp)
+        except (KeyError, TypeError, ValueError, IndexError):
+            pass   # a record this module's replay does not know: fall back
+    return rerun(body)
+
+
+def rerun(body):
+    """Fallback for records without a dedicated replay: run the property's
+    check again (same tier, no search state is reused) into a scratch output
+    directory and report whether a violation with the same signature
+    appears."""
+    import os
+    import shutil
+    import tempfile
+    prop = body['property']
+    want = json.dumps(body.get('signature'), sort_keys=True)
+    out = tempfile.mkdtemp(prefix='verif-replay-')
+    os.environ['VERIF_OUT'] = out
+    os.environ['VERIF_REPLAY_ALL'] = '1'
+    try:
+        mod = importlib.import_module('mc.props.' + prop.lower())
+        import contextlib
+        import io
+        with contextlib.redirect_stdout(io.StringIO()):
+            mod.main(body.get('tier', 'quick'),
+                     int(os.environ.get('VERIF_SEED', '0') or 0))
+        rdir = os.path.join(out, 'replays', prop)
+        hits = []
+        for name in sorted(os.listdir(rdir)) if os.path.isdir(rdir) else []:
+            if not name.endswith('.json'):
+                continue
+            with open(os.path.join(rdir, name)) as f:
+                other = json.load(f)
+            if json.dumps(other.get('signature'), sort_keys=True) == want:
+                hits.append(other)
+        for h in hits[:3]:
+            print('REPRODUCED:', h['message'][:600])
+        if not hits:
+            print('not reproduced (no violation with signature %s on this '
+                  'tree)' % want)
+        return 1 if hits else 0
+    finally:
+        shutil.rmtree(out, ignore_errors=True)
